@@ -31,6 +31,8 @@ var (
 	ErrTxNotFound = errors.New("transaction not found")
 	// ErrTxDuplicated ...
 	ErrTxDuplicated = errors.New("transaction duplicated in different blocks")
+	// ErrBlockAlreadyExist is returned when a block that is already stored is confirmed again
+	ErrBlockAlreadyExist = errors.New("block already exists in this ledger")
 	// ErrRootBlockAlreadyExist is returned when two genesis block is checked in the process of confirming block
 	ErrRootBlockAlreadyExist = errors.New("this ledger already has genesis block")
 	// ErrTxNotConfirmed return tx not confirmed error
@@ -559,6 +561,14 @@ func (l *Ledger) ConfirmBlock(block *pb.InternalBlock, isRoot bool) ConfirmStatu
 	blkTimer := timer.NewXTimer()
 	l.xlog.Info("start to confirm block", "blockid", utils.F(block.Blockid), "txCount", len(block.Transactions))
 	var confirmStatus ConfirmStatus
+	if exist, _ := l.blocksTable.Has(block.Blockid); exist && !isRoot {
+		// confirming a stored block again would rewrite its header as a fresh branch block
+		// (in_trunk / next_hash / height index of a main-chain block get lost)
+		confirmStatus.Succ = false
+		confirmStatus.Error = ErrBlockAlreadyExist
+		l.xlog.Warn("block already exists in ledger", "blockid", utils.F(block.Blockid))
+		return confirmStatus
+	}
 	dummyTransactions := []*pb.Transaction{}
 	realTransactions := block.Transactions // 真正的交易转存到局部变量
 	block.Transactions = dummyTransactions // block表不保存transaction详情
